@@ -859,7 +859,7 @@ rc::Gen<GProg> gen_prog(const std::vector<int>& kinds, int max_ops)
         rc::gen::set(&GProg::prefix, rc::gen::resize(6, rc::gen::container<std::vector<Op>>(gen_op(false)))), rc::gen::set(&GProg::t0, thr1), rc::gen::set(&GProg::t1, thr1),
         rc::gen::set(&GProg::t2, rc::gen::oneOf(rc::gen::just(std::vector<Op>{}), rc::gen::just(std::vector<Op>{}), thr)),
         rc::gen::set(&GProg::suffix_variant, uni_int(0, 3)),
-        rc::gen::set(&GProg::big, weighted<int>({{30, 0}, {1, 1}, {1, 2}, {1, 3}})),
+        rc::gen::set(&GProg::big, weighted<int>({{30, 0}, {2, 1}, {2, 2}, {2, 3}})),
         rc::gen::set(&GProg::schedules, rc::gen::resize(6, rc::gen::container<std::vector<std::vector<int>>>(
                                             rc::gen::resize(30, rc::gen::container<std::vector<int>>(weighted<int>({{6, 0}, {3, 1}, {1, 2}})))))));
 }
